@@ -24,6 +24,8 @@ func main() {
 		runChain(*in, *out, *seed)
 	case "cors":
 		runCors(*in, *out, *seed)
+	case "pure":
+		runPure(*in, *out, *seed)
 	case "nego":
 		runNego(*in, *out, *seed)
 	default:
